@@ -6,6 +6,7 @@ profile (overflow of i64 / BUint / BInt arithmetic, index out of range, assertio
 fuel of a loop runs out.
 -/
 import Ymq.Lemmas.GcdLoop
+import Ymq.Lemmas.GcdReduceInv
 
 namespace Ymq.C09
 open Ymq.Gcd
@@ -19,6 +20,30 @@ theorem step_gcd (a b c d : Int) (x y : Nat) (hdet : a * d - b * c = 1 ∨ a * d
 example : (2 : Int) * 3 - 5 * 1 = 1 ∧
     Nat.gcd ((2 : Int) * (12 : Nat) + 5 * (18 : Nat)).natAbs ((1 : Int) * (12 : Nat) + 3 * (18 : Nat)).natAbs
       = Nat.gcd 12 18 := by decide
+
+/-- `reduce64(x, y)` for **all** pairs of 64-bit words (no precondition is needed): no panic (no i64
+overflow, no failing debug assertion, the loop ends within 70 iterations), the returned matrix
+satisfies `a x + b y = u`, `c x + d y = v` for the final `(u, v)` of the loop, which are not larger
+than the inputs, `a d - b c = ±1`, and every entry is bounded by `2^36` in absolute value (the
+code's debug assertions; in fact the bound is strict). -/
+theorem reduce64_inv (x y : Nat) (hx : x < 2 ^ 64) (hy : y < 2 ^ 64) :
+    ∃ (a b c d : Int) (u v : Nat), reduce64 x y = some (a, b, c, d) ∧
+      a * x + b * y = u ∧ c * x + d * y = v ∧ u ≤ max x y ∧ v ≤ max x y ∧
+      (a * d - b * c = 1 ∨ a * d - b * c = -1) ∧
+      a.natAbs ≤ 2 ^ 36 ∧ b.natAbs ≤ 2 ^ 36 ∧ c.natAbs ≤ 2 ^ 36 ∧ d.natAbs ≤ 2 ^ 36 := by
+  obtain ⟨a, b, c, d, u, v, hr, hinv, _⟩ := reduce64_spec x y (by rw [W_eq]; exact hx) (by rw [W_eq]; exact hy)
+  refine ⟨a, b, c, d, u, v, hr, hinv.relu, hinv.relv, ?_, ?_, hinv.det, ?_, ?_, ?_, ?_⟩
+  · rcases hinv.phase with ⟨_, _, _, _, rfl, rfl⟩ | ⟨_, _, _, _, rfl, rfl, _⟩ | ⟨h1, h2⟩ <;> omega
+  · rcases hinv.phase with ⟨_, _, _, _, rfl, rfl⟩ | ⟨_, _, _, _, rfl, rfl, _⟩ | ⟨h1, h2⟩ <;> omega
+  all_goals
+    first
+    | (have h := hinv.ba; rw [Int.abs_eq_natAbs] at h; omega)
+    | (have h := hinv.bb; rw [Int.abs_eq_natAbs] at h; omega)
+    | (have h := hinv.bc; rw [Int.abs_eq_natAbs] at h; omega)
+    | (have h := hinv.bd; rw [Int.abs_eq_natAbs] at h; omega)
+
+example : reduce64 18446744073709551615 12345678901234567 =
+    some (-3133215, 4681606876, 11521471, -17215223933) := by decide +kernel
 
 /-- `gcd_internal::<N, EXT>` (partial correctness, all operands, every fuel): whenever the loop
 returns, `d = gcd(n, p)` and, in the extended variant, `u*n + v*p = d` over the integers.
